@@ -262,7 +262,7 @@ def _real_tz_call(tz, name, dt):
     import types as _t
     if isinstance(f, _t.FunctionType) and rt._is_ofx(f) and isinstance(dt, Sym):
         return rt.call(_t.MethodType(f, tz), dt)
-    return getattr(tz, name)(None)
+    return getattr(tz, name)(None if isinstance(dt, Sym) else dt)
 
 
 def tz_offset_us(tz, dt=None):
@@ -405,7 +405,7 @@ def _utcoffset(v):
         return None
     if isinstance(tz, SymTz):
         return SymTD(tz.off_min * 60 * US, tz.off_min)
-    return _real_tz_call(tz, "utcoffset", v)
+    return _real_tz_call(tz, "utcoffset", None if isinstance(v, SymTime) else v)      # datetime.time asks its zone with None
 
 
 def _tzname(v):
@@ -414,7 +414,7 @@ def _tzname(v):
         return None
     if isinstance(tz, SymTz):
         return tz.name
-    return _real_tz_call(tz, "tzname", v)
+    return _real_tz_call(tz, "tzname", None if isinstance(v, SymTime) else v)
 
 
 def _dt_replace(v, **kw):
